@@ -40,6 +40,7 @@ pub fn edit_r1() -> impl Strategy<Value = Edit> + Clone {
         1 => any::<u16>().prop_map(|pos| Edit::TokenDelete { pos }),
         2 => (any::<u16>(), 1u8..5, 0u8..5).prop_map(|(pos, count, how)| Edit::Reindent { pos, count, how }),
         1 => (any::<u16>(), 1u8..4, 0u8..3).prop_map(|(pos, count, how)| Edit::TrailingWs { pos, count, how }),
+        1 => Just(Edit::DeleteAgentLines),
     ]
 }
 
